@@ -327,7 +327,7 @@ def run(ctx, bt, scale=1):
             st = [sched, ["SelectAll"], ["SetStatSelectN", ctx.rng.randint(0, 10 ** 6), ctx.rng.randint(1, max(1, len(tk) - 1)), gap * ctx.rng.randint(0, 2), ctx.rng.random() < 0.5],
                   ["WeighEqually"], ["Rebalance"]]
         elif kind == "where":
-            st = [sched, ["SelectAll"], ["SelectWhere", ctx.rng.randint(0, 10 ** 6)], ["WeighEqually"], ["Rebalance"]]
+            st = [sched, ["SelectAll"], ["SelectWhere", ctx.rng.randint(0, 10 ** 6), ctx.rng.random() < 0.5], ["WeighEqually"], ["Rebalance"]]
         else:
             st = [sched, ["SelectAll"], ["WeighTarget", ctx.rng.randint(0, 10 ** 6)], ["Rebalance"]]
         spec["tree"] = {"name": "top", "tickers": list(tk), "kids": [], "stack": st}
